@@ -689,6 +689,8 @@ def run_js(prop, spec, seed, tier, known, ev):
             hit('source-map-module-threw', req, a['error'][:300])
             continue
         model = v.get('model') or []
+        if v.get('spec_differs'):
+            corr.append(('js', req, {}, {'model': 'findEntry model differs from the lookup specification on this map', 'real': ''}))
         for pos, ans, mo in zip(positions, a['answers'], model):
             checked += 1
             got = ans['got']
